@@ -39,7 +39,8 @@ ASSUMPTIONS = [
     'v [not] in (m.a for m in g.members if c), v [not] in g.members.a, not (v in (...)), scalar conditions mentioning count(m for m in g.members if c), joined by `and`; '
     'reference: the members are the P objects whose group is g; a None element of the collection never matches, a None left operand makes the comparisons unknown; primary '
     'keys of P are distinct integers; one count-subquery per condition; len(g.members) / count(g.members) in conditions have their own model (Model/C01Len.v: LEFT JOIN + GROUP BY g.id + '
-    'HAVING; primary keys of G distinct integers; WHERE conditions over g\'s own columns); sum / min / max / avg over a collection, len() in the selected expression are not modelled',
+    'HAVING; primary keys of G distinct integers; WHERE conditions over g\'s own columns); subquery conditions and the scalar subqueries count / sum / min / max(<item> for m in g.members if c) '
+    'combine freely with and / or / not and may be selected (Model/C01Form.v; an item must mention m; avg and the attribute-lifting forms sum(g.members.a) are not modelled)',
     'aggregates as whole-query results without GROUP BY (Model/C01Aggr.v): select(count() | count(p) | count(e) | sum(e) | sum(distinct(e)) | min(e) | max(e) | avg(e) | '
     'avg(distinct(e)) for p in P [if c]); reference = Pony\'s documented aggregates over the comprehension: None values skipped, sum of nothing 0, min / max / avg of nothing None, '
     'count(e) = number of different non-None values (strict Python would raise on None operands and has no count); the average is the exact quotient (float rounding outside); '
@@ -233,7 +234,7 @@ def search(ctx, deep):
     evals += c_evals; failures += c_fail; nontriv |= c_nontriv; dist['collection'] = c_dist
     l_evals, l_fail, l_nontriv, l_dist = C.len_search(ctx, C.gen_len_queries(ctx, z.get('len_search', 120)), creal)
     evals += l_evals; failures += l_fail; nontriv |= l_nontriv; dist['collection_len'] = l_dist
-    f_evals, f_fail, f_nontriv, f_dist = C.form_search(ctx, C.gen_form_queries(ctx, z.get('form_search', 150)), creal)
+    f_evals, f_fail, f_nontriv, f_dist = C.form_search(ctx, C.gen_form_queries(ctx, z.get('form_search', 150), search=True), creal)
     evals += f_evals; failures += f_fail; nontriv |= f_nontriv; dist['collection_formula'] = f_dist
     areal = H.RealDb(table_rows(ctx, 8))
     a_evals, a_fail, a_nontriv, a_dist = A.aggr_search(ctx, A.gen_queries(ctx, z.get('aggr_search', 200), search=True), areal, H.RealDb)
@@ -263,11 +264,11 @@ LEVEL_TEXT = ('Machine-checked proof (Coq 8.16.1, structural induction on the ex
               'and searches: the LIKE family (C01_like), attribute paths through Optional to-one references with the FROM / LEFT JOIN section (C01_left_join_rows, '
               'C01_select_join_rows), and conditions over a to-many collection - EXISTS / NOT EXISTS, IN / NOT IN subqueries with the IS NOT NULL checks, COUNT(DISTINCT pk) '
               'scalar subqueries, correlated inner conditions (C01_collection_atom, C01_collection_rows), the same subquery conditions combined freely with and / or / not '
-              '(C01_collection_formula_rows: every subquery has the stored form of its three-valued Python value), len(g.members) / count(g.members) in conditions with the LEFT JOIN + '
+              'and with sum / min / max / count of an item expression over the collection, also as selected values (C01_collection_formula_rows: every subquery has the stored form of its three-valued Python value), len(g.members) / count(g.members) in conditions with the LEFT JOIN + '
               'GROUP BY + HAVING statement the translator emits (C01_collection_len_rows), and aggregates as whole-query results without GROUP BY - count / sum / '
               'min / max / avg of a scalar expression over the filtered rows with the DISTINCT forms, NULL skipping and sum of nothing = 0 (C01_aggregate) - each stated except '
               'for recorded, refuted defects.')
-LEVEL_NOTE = ('Partial: joins over several loop variables, collection conditions other than the exists / in / count / len atoms (sum / min / max over a collection, nested collections), aggregates with GROUP BY / HAVING or several per query, ordering, dates, Decimal / float, JSON, arrays, hybrid methods, lambdas and generator '
+LEVEL_NOTE = ('Partial: joins over several loop variables, collection conditions other than the exists / in / count / len atoms (avg over a collection, sum(g.members.a)-style attribute lifting with GROUP BY, nested collections), aggregates with GROUP BY / HAVING or several per query, ordering, dates, Decimal / float, JSON, arrays, hybrid methods, lambdas and generator '
               'objects (decompiler), entity row decoding are outside the theorem and outside this check. Trusted: Coq kernel + vm_compute; the hand-written translation '
               'model (tied structurally on every run); documentation models of PostgreSQL / MySQL (nothing executes there); the reference reading of None written from '
               'the property statement.')
